@@ -14,7 +14,7 @@ package x509
 // "returns whether an extension with the given oid exists in extensions"
 // (The existential is written as a negated forall with the spec.mark trigger, see hasSAN below.)
 //@ func oidInExtensions
-//@   uses perreturn
+//@   uses perreturn xadd
 //@   loop 1 invariant spec.mark(it)
 //@   loop 1 invariant forall(j, 0, len(extensions), !spec.mark(j) || j == it || j > it || !oidEq(extensions[j].Id, oid), spec.mark(j))
 //@   ensures result <==> !forall(j, 0, len(extensions), !spec.mark(j) || !oidEq(extensions[j].Id, oid), spec.mark(j))
